@@ -10,6 +10,7 @@ arithmetic from the language reference).  The oracle is the judge.
 """
 import collections
 import json
+import os
 
 from harness.lib import common, scalarcpp as S
 
@@ -159,7 +160,11 @@ def direct_part(chk, prop, tier, model_exe, stats, budget="run"):
     allcfgs = S.thorough_configs(r)
     stats["configurations"] = len(allcfgs)
     first = True
-    for c in range(8, 65, 8):
+    only = os.environ.get("VERIF_ONLY_C")      # development knob: subset of container sizes
+    sizes = [int(x) for x in only.split(",")] if only else list(range(8, 65, 8))
+    if only:
+        stats["VERIF_ONLY_C"] = only
+    for c in sizes:
         cfgs = [x for x in allcfgs if x.c == c]
         for path, noopt in (("opt", False), ("noopt", True)):
             shapes, argts, cases = S.build_cases(cfgs, r, 24)
